@@ -144,7 +144,7 @@ func (r *TaskRunner) Run(t *task.Task) error {
 	env = env.With("TASK_NAME", t.Name)
 	env = env.Merge(t.Env)
 
-	meets, err := r.checkTaskCondition(t)
+	meets, err := r.checkTaskCondition(t, execContext)
 	if err != nil {
 		return err
 	}
@@ -155,7 +155,7 @@ func (r *TaskRunner) Run(t *task.Task) error {
 		return nil
 	}
 
-	err = r.before(r.ctx, t, env, vars)
+	err = r.before(r.ctx, t, execContext, env, vars)
 	if err != nil {
 		return err
 	}
@@ -176,7 +176,7 @@ func (r *TaskRunner) Run(t *task.Task) error {
 	}
 	r.storeTaskOutput(t)
 
-	return r.after(r.ctx, t, env, vars)
+	return r.after(r.ctx, t, execContext, env, vars)
 }
 
 // Cancel cancels execution
@@ -208,14 +208,9 @@ func (r *TaskRunner) WithVariable(key, value string) *TaskRunner {
 	return r
 }
 
-func (r *TaskRunner) before(ctx context.Context, t *task.Task, env, vars variables.Container) error {
+func (r *TaskRunner) before(ctx context.Context, t *task.Task, execContext *ExecutionContext, env, vars variables.Container) error {
 	if len(t.Before) == 0 {
 		return nil
-	}
-
-	execContext, err := r.contextForTask(t)
-	if err != nil {
-		return err
 	}
 
 	for _, command := range t.Before {
@@ -238,14 +233,9 @@ func (r *TaskRunner) before(ctx context.Context, t *task.Task, env, vars variabl
 	return nil
 }
 
-func (r *TaskRunner) after(ctx context.Context, t *task.Task, env, vars variables.Container) error {
+func (r *TaskRunner) after(ctx context.Context, t *task.Task, execContext *ExecutionContext, env, vars variables.Container) error {
 	if len(t.After) == 0 {
 		return nil
-	}
-
-	execContext, err := r.contextForTask(t)
-	if err != nil {
-		return err
 	}
 
 	for _, command := range t.After {
@@ -294,14 +284,9 @@ func (r *TaskRunner) contextForTask(t *task.Task) (c *ExecutionContext, err erro
 	return c, nil
 }
 
-func (r *TaskRunner) checkTaskCondition(t *task.Task) (bool, error) {
+func (r *TaskRunner) checkTaskCondition(t *task.Task, executionContext *ExecutionContext) (bool, error) {
 	if t.Condition == "" {
 		return true, nil
-	}
-
-	executionContext, err := r.contextForTask(t)
-	if err != nil {
-		return false, err
 	}
 
 	job, err := r.compiler.CompileCommand(t.Condition, executionContext, t.Dir, t.Timeout, nil, r.Stdout, r.Stderr, r.env, r.variables)
